@@ -29,16 +29,21 @@ d = f'{root}/seeded/{c}-{n}'
 os.makedirs(d + '/demo', exist_ok=True)
 shutil.copy(f'{out}/patch.diff', d); shutil.copy(f'{out}/meta.json', d + '/agent_meta.json')
 for f in glob.glob(f'{out}/demo/*'): shutil.copy(f, d + '/demo/')
-r = subprocess.run([f'{root}/tools/seeded_apply_run.sh', f'{c}-{n}', c], capture_output=True, text=True)
-print(r.stdout.strip(), r.stderr.strip()[-300:])
-log = open(f'{d}/runs/{c}.log').read()
-viol = [l for l in log.splitlines() if l.startswith('VIOLATION') or l.strip().startswith('clause=')]
+if os.environ.get('SEEDED_SKIP_RUN'):
+    # confirmation and storage only (other work is building from /repo right now); tools/seeded_rerun.py does the recorded run later
+    viol, pending = [], True
+else:
+    pending = False
+    r = subprocess.run([f'{root}/tools/seeded_apply_run.sh', f'{c}-{n}', c], capture_output=True, text=True)
+    print(r.stdout.strip(), r.stderr.strip()[-300:])
+    log = open(f'{d}/runs/{c}.log').read()
+    viol = [l for l in log.splitlines() if l.startswith('VIOLATION') or l.strip().startswith('clause=')]
 meta = {'id': f'{c}-{n}', 'property': c,
   'origin': 'written by a fresh sub-agent that was given only the property record and its own git worktree of /repo (nothing from /verif)' + ('; it was told which idea an earlier attempt had used and asked for a different mechanism' if n != '1' else ''),
   'summary': a.get('summary'), 'why_it_breaks': a.get('why_it_breaks'), 'needs_to_manifest': a.get('needs_to_manifest'), 'files_changed': a.get('files_changed'),
   'confirmed_by_me': {'how': 'tools/seeded_confirm.sh in the scratch worktree: go build ./... with the change; demonstration fails with the change and passes with the change reverted (git apply -R); existing tests of the touched packages pass with the change (demonstration files moved aside). The full suite was run by the authoring agent with the change applied (see agent_meta.json tests_run).',
      'demo_cmd': cmd, 'confirmation_lines': conf[:12], 'demo_fails_with_change': True, 'demo_passes_without_change': True, 'builds': True},
   'runs': {'first_evaluation_before_any_strengthening': first, 'strengthening': strength, 'recorded_run': f'tools/seeded_apply_run.sh {c}-{n} {c}',
-     'result': 'exit 1' if viol else 'exit 0 (MISSED)', 'violation_lines': [v[:400] for v in viol][:6], 'log': f'runs/{c}.log'}}
+     'result': 'pending' if pending else ('exit 1' if viol else 'exit 0 (MISSED)'), 'violation_lines': [v[:400] for v in viol][:6], 'log': f'runs/{c}.log'}}
 json.dump(meta, open(d + '/meta.json', 'w'), indent=1, ensure_ascii=False)
 print('stored', d, meta['runs']['result'])
